@@ -93,16 +93,16 @@ Fixpoint ins_Z (x : Z) (l : list Z) : list Z :=
   end.
 Definition sort_Zs (l : list Z) : list Z := fold_right ins_Z [] l.
 
+(* The clause the implementation learned against the clause the model learns on the same state: the same asserting
+   literal in front, a second literal of the same level (the level of the back-jump, and the second watch), the same set
+   of literals.  The ORDER of the literals behind the second one is not compared: nothing reads them by position (the
+   code sorts them by level today; a clause that only moves a literal of the highest level into the second place, as
+   MiniSat does, is as good -- a harmless rewrite of that kind was reported as differs-from-model while sortedness was
+   demanded here). *)
 Definition same_learnt (st : lstate) (a b : list Z) : bool :=
   (hd 0 a =? hd 0 b) &&
   (lvl_of st (lvar (nth 1 a 0)) =? lvl_of st (lvar (nth 1 b 0))) &&
-  eqb_Zs (sort_Zs a) (sort_Zs b) &&
-  (* levels do not increase along the observed clause from the second literal on *)
-  (fix mono (l : list Z) : bool :=
-     match l with
-     | x :: ((y :: _) as r) => (lvl_of st (lvar y) <=? lvl_of st (lvar x)) && mono r
-     | _ => true
-     end) (tl b).
+  eqb_Zs (sort_Zs a) (sort_Zs b).
 
 (* ---- kind 0 : learnClause ------------------------------------------------------------------------------------ *)
 
